@@ -19,12 +19,23 @@ def replay(ctx):
         print('--- model and specification'); [print(l) for l in m.get('replay', [])]
 
 
+# properties whose theorems rest on compiler::is_more_specific / is_base / best: the same theorems over the functions as
+# translated from detail/compiler.hpp on this run (translators/ordering.py -> Gen/GenOrdering.v)
+SOURCE_ORDERING = ('C01', 'C02', 'C03', 'C06', 'C17')
+
+
+def source_ordering(ctx):
+    vlib.proof_phase_extra(ctx, 'Properties_core_source')
+
+
 def main(pid, assumptions, level='proof', explanation=None):
     ctx = vlib.Ctx(pid)
     if ctx.replay:
         replay(ctx); sys.exit(0)
     ctx.level = level
     vlib.proof_phase(ctx)
+    if pid in SOURCE_ORDERING:
+        source_ordering(ctx)
     res = coresuite.dispatch_suite(ctx.tier, ctx.seed)
     cov = coresuite.summarize(ctx, res, pid)
     if ctx.broken and not ctx.violations:
